@@ -187,8 +187,75 @@ def append_case(rng):
     return Case("append:" + fmt, {"a": a, "b": b}, lines, nontrivial=True)
 
 
+def observe(ts):
+    """pure observers of a list of trees: must not influence, or be influenced by, earlier observations"""
+    out = []
+    g, lex = {}, {}
+    stats = treeanalysis.GapDegree()
+    with quiet():
+        for t in ts:
+            out.append("deg=%d" % treeanalysis.gap_degree(t))
+            out.append("nodes=" + ",".join(str(treeanalysis.gap_degree_node(n)) for n in trees.preorder(t)))
+            out.append("blocks=" + repr([[x.data['num'] for x in b] for n in trees.preorder(t) for b in trees.terminal_blocks(n)]))
+            out.append("levels=" + repr(sorted(trees.levels(t)[1].values())))
+            grammar.extract(t, g, lex)
+            stats.run(t)
+            s = io.StringIO()
+            try:
+                treeoutput.terminals(t, s)
+                treeoutput.brackets(t, s, brackets_skipdisco=True)
+            except Exception as e:
+                s.write(proto.err_name(e))
+            out.append(s.getvalue())
+    out.append(gram.enc_grammar(g))
+    out.append(repr(sorted(stats.gaps_per_node.items())) + repr(sorted(stats.gaps_per_tree.items())))
+    return "\n".join(out)
+
+
+def observer_case(rng):
+    """analysing trees before transforming them must not change what is computed afterwards"""
+    from impl import transform
+    text = ""
+    k = rng.randint(1, 3)
+    for i in range(k):
+        t = small_tree(rng, p_disc=0.6, p_root_direct=0.8, n_min=3, n_max=8) if False else treegen.gen_tree(
+            rng, treegen.Cfg(n_min=3, n_max=8, p_disc=0.6, p_root_direct=0.8, none_fields=False, labels=["S", "VP", "NP"],
+                             words=["a", "b", "Haus"], punct_words=[",", "."], p_punct=0.3, edges=["HD", "--"]))
+        t.data['sid'] = i + 1
+        s = io.StringIO()
+        treeoutput.export(clone_sid(t), s)
+        text += s.getvalue()
+    seq = rng.choice([["root_attach"], ["punctuation_delete"], ["root_attach", "punctuation_verylow"], ["punctuation_root"],
+                      ["root_attach", "negra_mark_heads", "boyd_split", "raising"]])
+    with cli.Scratch() as sc:
+        p = sc.write("x.export", text)
+
+        def run(pre):
+            with quiet():
+                ts = list(treeinput.export(p, "utf-8", quiet=True))
+            if pre:
+                observe(ts)
+            res = []
+            with quiet():
+                for t in ts:
+                    for name in seq:
+                        t = getattr(transform, name)(t, quiet=True)
+                    res.append(t)
+            return observe(res)
+        try:
+            a, b = run(True), run(False)
+        except Exception as e:
+            a, b = "raised", proto.err_name(e)
+    lines = [Line("pred", "P.C18.eq", [proto.enc_s(a), proto.enc_s(b)], note="observing before %s vs not observing" % "+".join(seq))]
+    return Case("observer:" + "+".join(seq), {"text": text, "transformations": seq}, lines, nontrivial=True)
+
+
 def gen(seed, tier, scale):
     idx = 0
+    for _ in range((200 if tier == "quick" else 4000) * scale):
+        rng = case_rng(seed, ID, idx)
+        yield idx, observer_case(rng)
+        idx += 1
     nh = (40 if tier == "quick" else 600) * scale
     rngs = [case_rng(seed, ID, idx + i) for i in range(nh)]
     for i, c in enumerate(cli.pmap(history_case, rngs, workers=4)):
